@@ -346,7 +346,7 @@ def c09(tier):
     LL = {"cellToLocalIjk.0": 7, "cellToLocalIjk.1": 7, "cellToLocalIjk.2": 7, "cellToLocalIjk.3": 7, "cellToLocalIjk.4": 7, "cellToLocalIjk.5": 7,
           "localIjkToCell.1": 7, "localIjkToCell.2": 7, "localIjkToCell.3": 7, "localIjkToCell.4": 7, "localIjkToCell.5": 7, "localIjkToCell.6": 7}
     for r in (0, 1, 4):
-        j = J("basic_r%d" % r, "C09_dist.c", ["-DBASIC", "-DRES=%d" % r], unwind=17, us=LL, est=60 + 5 * r, mem="M", bound="all valid cells of res %d (mismatching cell: any valid cell of any other resolution)" % r)
+        j = J("basic_r%d" % r, "C09_dist.c", ["-DBASIC", "-DRES=%d" % r], unwind=r + 2, us=LL, est=60 + 5 * r, mem="M", bound="all valid cells of res %d (mismatching cell: any valid cell of any other resolution)" % r)
         js += with_witness(j) if r == 1 else [j]
     for r in ALLRES:
         if r > 8 and r != 15:
